@@ -448,9 +448,17 @@ func (v *anyOfValidator) desc() *validatorDesc {
 }
 
 func lowerFirst(s string) string {
+	if s == "" {
+		return s
+	}
+
 	return strings.ToLower(s[:1]) + s[1:]
 }
 
 func upperFirst(s string) string {
+	if s == "" {
+		return s
+	}
+
 	return strings.ToUpper(s[:1]) + s[1:]
 }
